@@ -42,7 +42,8 @@ def b(x):
 
 def field_ok(side, f):
     if side == "req":
-        return f["effect"] == "prefixed" and f["intact"] == "1" and f["emptyend"] in ("na", "kend")
+        want = {"end": ("kend",), "start": ("kstart",), "key": ("kstart", "empty")}[f["role"]]
+        return f["effect"] == "prefixed" and f["intact"] == "1" and f["empty"] in want
     return f["effect"] == ("stripped" if f["fmt"] == "plain" else "stripped-region")
 
 
@@ -96,7 +97,8 @@ def catalogue(c, hbin, cmds):
                 c.problems.append(p)
             field_rows.setdefault(w[1], []).append(
                 f"  ⟨{lstr(w[1])}, .{w[2]}, {lstr(w[3])}, {b(f['multi'])}, .{f['fmt']}, .{EFFECT.get(f['effect'], 'other')}, {b(f['intact'])}, "
-                f".{f['emptyend'] if f['emptyend'] in ('na', 'kend', 'empty') else 'other'}, {b('1' if kn else '0')}⟩")
+                f".{'end_' if f['role'] == 'end' else f['role']}, .{f['empty'] if f['empty'] in ('na', 'kend', 'kstart', 'empty') else 'other'}, "
+                f"{b('1' if kn else '0')}⟩")
     if not cmd_rows:
         c.problems.append(Problem("tie", "catalogue has no command rows", ["-catalogue"]))
         return False
